@@ -27,6 +27,10 @@ type benv map[ssa.Value]bval
 // foldParserCount, when set, is the value len() of any []parsley.Parser takes during a fold.
 var foldParserCount *int64
 
+// foldBoolField, when set, is the value every bool field of a receiver object takes during a fold (the allow-empty
+// flag of a helper object that replaced captured variables).
+var foldBoolField *bool
+
 // foldValue evaluates v under env; unknown values yield known=false.
 func foldValue(v ssa.Value, env benv, depth int) bval {
 	if r, ok := env[v]; ok {
@@ -63,6 +67,12 @@ func foldValue(v ssa.Value, env benv, depth int) bval {
 		}
 	case *ssa.ChangeType:
 		return foldValue(x.X, env, depth+1)
+	case *ssa.Field:
+		if bt, ok := x.Type().Underlying().(*types.Basic); ok && bt.Kind() == types.Bool && foldBoolField != nil {
+			if _, isParam := x.X.(*ssa.Parameter); isParam {
+				return bval{known: true, isB: true, b: *foldBoolField}
+			}
+		}
 	case *ssa.UnOp:
 		if x.Op == token.NOT {
 			r := foldValue(x.X, env, depth+1)
@@ -72,6 +82,14 @@ func foldValue(v ssa.Value, env benv, depth int) bval {
 			}
 		}
 		if x.Op == token.MUL {
+			if fa, ok := x.X.(*ssa.FieldAddr); ok && foldBoolField != nil {
+				if bt, ok := x.Type().Underlying().(*types.Basic); ok && bt.Kind() == types.Bool {
+					_, isParam := fa.X.(*ssa.Parameter)
+					if al, isLocal := fa.X.(*ssa.Alloc); isParam || isLocal && !al.Heap {
+						return bval{known: true, isB: true, b: *foldBoolField}
+					}
+				}
+			}
 			// a captured variable with a value supplied by the caller of the fold
 			if fv, ok := x.X.(*ssa.FreeVar); ok {
 				if r, ok := env[fv]; ok {
@@ -193,7 +211,15 @@ func foldToReturn(fn *ssa.Function, args []bval, captured benv, depth int) (*ssa
 						}
 					}
 				}
-			case *ssa.Store, *ssa.MapUpdate, *ssa.Go, *ssa.Defer, *ssa.Send, *ssa.Panic:
+			case *ssa.Store:
+				// spilling a parameter (a value receiver) into a local is not an effect
+				if al, ok := x.Addr.(*ssa.Alloc); ok && !al.Heap {
+					if _, isParam := x.Val.(*ssa.Parameter); isParam {
+						continue
+					}
+				}
+				return nil, nil, nil // not pure
+			case *ssa.MapUpdate, *ssa.Go, *ssa.Defer, *ssa.Send, *ssa.Panic:
 				return nil, nil, nil // not pure
 			case *ssa.Return:
 				return x, env, took
